@@ -424,20 +424,21 @@ func keyExchange(klen int, ida, idb []byte, pri *PrivateKey, pub *PublicKey, rpr
 		pzb = &pri.PublicKey
 	}
 	zb, err := ZA(pzb, idb)
-	k, ok := kdf(klen, vx.Bytes(), vy.Bytes(), za, zb)
+	vxBuf, vyBuf := bigTo32Bytes(vx), bigTo32Bytes(vy)
+	k, ok := kdf(klen, vxBuf, vyBuf, za, zb)
 	if !ok {
 		err = errors.New("kdf: zero key")
 		return
 	}
 	// Hash(xV || ZA || ZB || x1 || y1 || x2 || y2) with (x1,y1) = RA and (x2,y2) = RB
-	h1 := BytesCombine(vx.Bytes(), za, zb, rpri.X.Bytes(), rpri.Y.Bytes(), rpub.X.Bytes(), rpub.Y.Bytes())
+	h1 := BytesCombine(vxBuf, za, zb, bigTo32Bytes(rpri.X), bigTo32Bytes(rpri.Y), bigTo32Bytes(rpub.X), bigTo32Bytes(rpub.Y))
 	if !thisISA {
-		h1 = BytesCombine(vx.Bytes(), za, zb, rpub.X.Bytes(), rpub.Y.Bytes(), rpri.X.Bytes(), rpri.Y.Bytes())
+		h1 = BytesCombine(vxBuf, za, zb, bigTo32Bytes(rpub.X), bigTo32Bytes(rpub.Y), bigTo32Bytes(rpri.X), bigTo32Bytes(rpri.Y))
 	}
 	hash := sm3.Sm3Sum(h1)
-	h2 := BytesCombine([]byte{0x02}, vy.Bytes(), hash)
+	h2 := BytesCombine([]byte{0x02}, vyBuf, hash)
 	S1 := sm3.Sm3Sum(h2)
-	h3 := BytesCombine([]byte{0x03}, vy.Bytes(), hash)
+	h3 := BytesCombine([]byte{0x03}, vyBuf, hash)
 	S2 := sm3.Sm3Sum(h3)
 	return k, S1, S2, nil
 }
@@ -478,6 +479,15 @@ func ZA(pub *PublicKey, uid []byte) ([]byte, error) {
 	za.Write(xBuf)
 	za.Write(yBuf)
 	return za.Sum(nil)[:32], nil
+}
+
+// bigTo32Bytes returns the fixed-width 32-byte big-endian encoding of a field element.
+func bigTo32Bytes(v *big.Int) []byte {
+	buf := v.Bytes()
+	if n := len(buf); n < 32 {
+		buf = append(zeroByteSlice()[:32-n], buf...)
+	}
+	return buf
 }
 
 // 32byte
